@@ -203,6 +203,74 @@ func (dec *Decoder) decodeInterfacePtr(tag byte, p **interface{}) {
 	*p = &i
 }
 
+// decodeNonEmptyInterface decodes a value for a destination of a non-empty
+// interface type t (p points to it). The decoded value is stored only if its
+// type implements t: writing an interface{} into such a slot would leave a
+// corrupt interface behind.
+func (dec *Decoder) decodeNonEmptyInterface(t reflect.Type, tag byte, p unsafe.Pointer) {
+	var v interface{}
+	dec.decodeInterface(tag, &v)
+	dst := reflect.NewAt(t, p).Elem()
+	if v == nil {
+		dst.Set(reflect.Zero(t))
+		return
+	}
+	if rv := reflect.ValueOf(v); rv.Type().Implements(t) {
+		dst.Set(rv)
+	} else if dec.Error == nil {
+		dec.Error = CastError{
+			Source:      rv.Type(),
+			Destination: t,
+		}
+	}
+}
+
+// decodeNonEmptyInterfacePtr does the same for a destination of type *I
+// (t is the pointer type, p points to the pointer).
+func (dec *Decoder) decodeNonEmptyInterfacePtr(t reflect.Type, tag byte, p unsafe.Pointer) {
+	ptr := (*unsafe.Pointer)(p)
+	if tag == TagNull {
+		*ptr = nil
+		return
+	}
+	if *ptr == nil {
+		*ptr = reflect2.Type2(t.Elem()).UnsafeNew()
+	}
+	dec.decodeNonEmptyInterface(t.Elem(), tag, *ptr)
+}
+
+// nonEmptyInterfaceDecoder is the implementation of ValueDecoder for an
+// interface type with methods, nonEmptyInterfacePtrDecoder for a pointer to one.
+type nonEmptyInterfaceDecoder struct {
+	t reflect.Type
+}
+
+func (valdec nonEmptyInterfaceDecoder) Decode(dec *Decoder, p interface{}, tag byte) {
+	dec.decodeNonEmptyInterface(valdec.t, tag, reflect2.PtrOf(p))
+}
+
+type nonEmptyInterfacePtrDecoder struct {
+	t reflect.Type
+}
+
+func (valdec nonEmptyInterfacePtrDecoder) Decode(dec *Decoder, p interface{}, tag byte) {
+	dec.decodeNonEmptyInterfacePtr(valdec.t, tag, reflect2.PtrOf(p))
+}
+
+func getInterfaceDecoder(t reflect.Type) ValueDecoder {
+	if t.NumMethod() > 0 {
+		return nonEmptyInterfaceDecoder{t}
+	}
+	return interfaceDecoder{}
+}
+
+func getInterfacePtrDecoder(t reflect.Type) ValueDecoder {
+	if t.Elem().NumMethod() > 0 {
+		return nonEmptyInterfacePtrDecoder{t}
+	}
+	return interfacePtrDecoder{}
+}
+
 // interfaceDecoder is the implementation of ValueDecoder for interface{}.
 type interfaceDecoder struct{}
 
